@@ -1,6 +1,7 @@
 \* thorough: 13 kinds x containers of <= 3 members
 CONSTANTS
   Kinds <- MC_Kinds
+  BigN = 60
   MaxN = 3
   Filters = {"none", "flate", "hexflate"}
   HdrSeps = {"sp", "nl", "crlf2"}
